@@ -345,6 +345,33 @@ func runCacheFile(p *FilePlan, ch *simrt.Choices) *fileRun {
 			}()
 		}
 		variant("intact", valid, true, nil, true)
+		// saving over an existing, longer cache file (the previous run knew
+		// more templates) must leave exactly the new cache
+		{
+			big := &fileAPI{proto: p.Proto}
+			big.load("/none")
+			for i := range p.Announce {
+				d := &p.Announce[i]
+				big.decode(srcAddr(&p.Exporters[d.Exporter]).IP, append([]byte(nil), d.payload...))
+			}
+			fat := &cacheAPI{proto: p.Proto, ic: big.ic, nc: big.nc}
+			for i := 0; i < 6; i++ {
+				fat.announce(CacheKeyPlan{Addr: []byte{203, 0, 113, byte(i + 1)}, ID: uint16(700 + i)}, 1+i, uint32(i))
+			}
+			rp := "/tmp/resave.file"
+			if err := big.dump(rp); err == nil {
+				prev, _ := sim.FS.Get(rp)
+				if err := orig.dump(rp); err != nil {
+					find("dump-error", "resave", err.Error())
+				} else {
+					now, _ := sim.FS.Get(rp)
+					if len(prev) > len(valid) {
+						res.Kinds["resave-over-longer-file"]++
+					}
+					variant("resave", now, true, nil, true)
+				}
+			}
+		}
 		// crash prefixes
 		var ks []int
 		if p.AllPrefixes {
